@@ -52,22 +52,22 @@ Next == \/ \E fs \in FilterLists, ow \in BOOLEAN : Convolve(fs, ow)
         \/ Bump
 Spec == Init /\ [][Next]_vars
 
-Last == hist'[Len(hist')]
+LastCall == hist'[Len(hist')]
 Requested(op) == IF op.k = "convolve" THEN {op.fs[i] : i \in 1..Len(op.fs)}
                  ELSE IF op.k = "mono" THEN {MonoName(j) : j \in op.lo..op.hi} ELSE {}
 \* a call without overwrite never changes a file that existed
-NoSilentOverwriteStep == (hist' # hist /\ ~Last.op.ow) => \A f \in Files : files[f] # 0 => files'[f] = files[f]
+NoSilentOverwriteStep == (hist' # hist /\ ~LastCall.op.ow) => \A f \in Files : files[f] # 0 => files'[f] = files[f]
 NoSilentOverwrite == [][NoSilentOverwriteStep]_vars
 \* a successful call leaves every file it names computed from the SEDs now on disk; files it does not name are untouched
-OkMeansFreshStep == (hist' # hist /\ Last.out = "ok" /\ Last.op.k # "bump") =>
-                      /\ \A f \in Requested(Last.op) : files'[f] = gen
-                      /\ \A f \in Files \ Requested(Last.op) : files'[f] = files[f]
+OkMeansFreshStep == (hist' # hist /\ LastCall.out = "ok" /\ LastCall.op.k # "bump") =>
+                      /\ \A f \in Requested(LastCall.op) : files'[f] = gen
+                      /\ \A f \in Files \ Requested(LastCall.op) : files'[f] = files[f]
 OkMeansFresh == [][OkMeansFreshStep]_vars
-OverwriteNeverRefusedStep == (hist' # hist /\ Last.op.ow /\ ~(Last.op.k = "mono" /\ fmt = "cube")) => Last.out = "ok"
+OverwriteNeverRefusedStep == (hist' # hist /\ LastCall.op.ow /\ ~(LastCall.op.k = "mono" /\ fmt = "cube")) => LastCall.out = "ok"
 OverwriteNeverRefused == [][OverwriteNeverRefusedStep]_vars
 \* a refused call changed only files it names, and only from absent to fresh (named behaviour PartialOnConflict: it MAY have)
-RefusedTouchesOnlyOwnStep == (hist' # hist /\ Last.out = "err") =>
-                      \A f \in Files : files'[f] # files[f] => (f \in Requested(Last.op) /\ files[f] = 0 /\ files'[f] = gen)
+RefusedTouchesOnlyOwnStep == (hist' # hist /\ LastCall.out = "err") =>
+                      \A f \in Files : files'[f] # files[f] => (f \in Requested(LastCall.op) /\ files[f] = 0 /\ files'[f] = gen)
 RefusedTouchesOnlyOwn == [][RefusedTouchesOnlyOwnStep]_vars
 \* the directory never holds a file from the future
 NoFuture == \A f \in Files : files[f] <= gen
